@@ -1477,3 +1477,20 @@ package analysis
 //@   requires doc != nil
 //@   modifies nothing
 //@   ensures result != nil && fresh(result) && result.spec == doc
+
+// ---------------------------------------------------------------- flatten.go: RemoveUnused (C06)
+
+// defTarget(r, n): the $ref r designates the top-level definition named n: it has only a fragment, and its JSON pointer
+// decodes (URL- and pointer-unescaped by the dependency) to exactly the tokens ["definitions", n]
+//@ fun defTarget(r spec.Ref, n string) bool = r.HasFragmentOnly && len(r.GetPointer().DecodedTokens()) == 2 && r.GetPointer().DecodedTokens()[0] == "definitions" && r.GetPointer().DecodedTokens()[1] == n
+//@ ofun referenced(s *Spec, n string) bool = exists k in dom(s.references.schemas) :: defTarget(s.references.schemas[k], n)
+
+//@ func removeUnusedSinglePass(opts)
+//@   aspect unused
+//@   requires opts != nil && opts.Spec != nil && opts.Spec.spec != nil
+//@   modifies map opts.Spec.spec.Definitions, heaps INDEX
+//@   ensures opts.Spec.spec == old(opts.Spec.spec) && opts.Spec.spec.Definitions == old(opts.Spec.spec.Definitions)
+//@   ensures forall n in dom(opts.Spec.spec.Definitions) :: old(n in dom(opts.Spec.spec.Definitions)) && opts.Spec.spec.Definitions[n] == old(opts.Spec.spec.Definitions[n])
+//@   ensures forall n string :: old(n in dom(opts.Spec.spec.Definitions)) && old(referenced(opts.Spec, n)) ==> n in dom(opts.Spec.spec.Definitions)
+//@   ensures forall n in dom(opts.Spec.spec.Definitions) :: old(referenced(opts.Spec, n))
+//@   ensures result <==> (exists n string :: old(n in dom(opts.Spec.spec.Definitions)) && !(n in dom(opts.Spec.spec.Definitions)))
